@@ -141,6 +141,39 @@ impl Ctx {
             Some(failed.is_empty()), cls);
     }
 
+
+    /// signed data inside a wrapper whose reader pulls with its own buffer sizes (uncompressed "compression" packet with
+    /// 512-octet partial chunks; SEIPDv1 with its 8 KiB blocks): what the builder wrote must read back and verify
+    fn wrapped(&mut self, key: &SignedSecretKey, text: bool, n: usize, enc: bool, cls: &str) {
+        use pgp::crypto::sym::SymmetricKeyAlgorithm;
+        use pgp::types::{CompressionAlgorithm, StringToKey};
+        let pk = SignedPublicKey::from(key.clone());
+        let payload: Vec<u8> = (0..n).map(|j| if text && j % 53 == 52 { b'\n' } else { b'a' + (j % 26) as u8 }).collect();
+        let pw = Password::from("c06");
+        let r = guarded(|| -> Option<bool> {
+            let bytes = if enc {
+                let mut b = MessageBuilder::from_bytes("", payload.clone()).seipd_v1(Rng::new(5), SymmetricKeyAlgorithm::AES128);
+                if text { b.sign_text(); }
+                b.sign(&key.primary_key, Password::empty(), key.primary_key.hash_alg());
+                b.encrypt_with_password(StringToKey::new_iterated(Rng::new(6), HashAlgorithm::Sha256, 10), &pw).ok()?;
+                b.to_vec(Rng::new(7)).ok()?
+            } else {
+                let mut b = MessageBuilder::from_bytes("", payload.clone());
+                b.compression(CompressionAlgorithm::Uncompressed); b.partial_chunk_size(512).ok()?;
+                if text { b.sign_text(); }
+                b.sign(&key.primary_key, Password::empty(), key.primary_key.hash_alg());
+                b.to_vec(Rng::new(7)).ok()?
+            };
+            let m = Message::from_bytes(&bytes[..]).ok()?;
+            let m = if enc { m.decrypt_with_password(&pw).ok()? } else { m };
+            let mut m = if m.is_compressed() { m.decompress().ok()? } else { m };
+            let mut o = Vec::new(); m.read_to_end(&mut o).ok()?;
+            Some(o == payload && m.verify(&pk).is_ok())
+        });
+        let ok = matches!(r, Ok(Some(true)));
+        self.out.case("", &[], &["wrapped".into(), (text as u8).to_string(), n.to_string(), (enc as u8).to_string(), hx(key.fingerprint().as_bytes())], if ok { "reads back and verifies" } else { "FAILED" }, Some(ok), cls);
+    }
+
     /// several signers: signature j verifies under key j (and not under another key)
     fn multi(&mut self, keys: &[&SignedSecretKey], text: bool, payload: &[u8], cls: &str) {
         let r = guarded(|| -> Option<Vec<u8>> {
@@ -223,6 +256,12 @@ fn main() {
         let key = [&k_ed4, &k_ed6][i % 2];
         cx.matrix(key, true, &s, "beyond-8k-text");
         cx.matrix(key, false, &s, "beyond-8k-binary");
+    }
+    // wrappers that pull from the signing generator with their own buffer sizes: the last signature packet may straddle them
+    {
+        let step = if thorough { 1 } else { 5 };
+        for n in (330..=520).step_by(step).chain((860..=1010).step_by(step)) { let key = [&k_ed4, &k_ed6, &k_rsa][n % 3]; cx.wrapped(key, n % 2 == 0, n, false, "wrapped-uncompressed-chunk512"); }
+        for n in (7980..=8200).step_by(if thorough { 1 } else { 9 }) { let key = [&k_ed4, &k_ed6][n % 2]; cx.wrapped(key, n % 3 == 0, n, true, "wrapped-seipd1"); }
     }
     // caller-chosen hash algorithms (other than the key's preferred one): v6 salts follow the hash actually used
     for (ki, key) in [&k_ed4, &k_ed6, &k_ec, &k_rsa, &k_448].into_iter().enumerate() {
